@@ -1,6 +1,6 @@
 """C04 — mixed-type ordering is one consistent total preorder."""
 import itertools, operator
-from .. import lean, proto, gen
+from .. import lean, proto, gen, util
 
 REQUIRED = ['Petl.C04.' + n for n in (
     'lt_irrefl lt_asymm lt_trans incomparable_iff_eq total eq_equivalence lt_congr_eq le_trans none_first '
@@ -195,6 +195,16 @@ def run(ctx):
                               {'reverse': rev, 'pass': pno, 'nrows': 120, 'buffersize': 2})
     ctx.exhaustive = False
 
+    # ---- operands that are sort views (issorted, merge joins)
+    util.view_operand_cases(etl, ctx.rng, ctx, [
+        ('issorted', 1, lambda t: [[etl.issorted(t, 'x'), etl.issorted(t, 'x', strict=True), etl.issorted(t, 'x', reverse=True),
+                                    etl.issorted(t, 'x', reverse=True, strict=True), etl.issorted(t), etl.issorted(t, ('x', 'xy'), strict=True)]]),
+        ('issorted(xy)', 1, lambda t: [[etl.issorted(t, 'xy'), etl.issorted(t, 'xy', strict=True), etl.issorted(t, 'xy', reverse=True, strict=True)]]),
+        ('join', 2, lambda a, b: etl.join(a, b, key='x')),
+        ('leftjoin', 2, lambda a, b: etl.leftjoin(a, b, key='x')),
+        ('selectlt', 1, lambda t: etl.selectlt(t, 'x', 2)),
+        ('sort', 1, lambda t: etl.sort(t, 'x')),
+    ], 240 if ctx.thorough() else 60)
 
 def replay(d):
     import ast as _ast
